@@ -59,6 +59,14 @@ func c04Gen(tier string, emit func(c04Case)) {
 			}
 		}
 	}
+	// chains LONGER than the limit: group + route middleware stay within it, global middleware (not counted) adds the
+	// rest; every handler must still run, in order
+	for _, sp := range [][3]int{{1, 31, 31}, {2, 31, 31}, {3, 0, 62}, {17, 31, 31}, {40, 2, 3}} {
+		n := sp[0] + sp[1] + sp[2] + 1
+		for _, def := range []byte{'n', 'p'} {
+			deviations(n, def, "pnd", 1, func(b string) { push(chainShape{N: n, Split: sp, Via: "mixed", Beh: b}) })
+		}
+	}
 	if len(cur) > 0 {
 		emit(c04Case{Shapes: cur})
 	}
@@ -90,7 +98,7 @@ func c04Run(c c04Case, st *fw.Stats) []fw.Viol {
 var c04Spec = fw.Spec[c04Case]{
 	ID:    "C04",
 	Level: "model_checking",
-	Rule: "complete enumeration: (a) all registration programs of <=N statements over {Use(k), Group(prefix,k){...}, Route(k variadic + k2 later Route.Use), NotFound(k), NotAllowed(k)} with nesting <=3, one request per registered route plus a 404 and a 405 request; (b) all behaviour vectors over {returns without Next, Next once, Next twice} for chains of n<=6 (thorough 7) x every split of the middleware into global/group/route x how route middleware is attached; (c) chains of 22..63 handlers by deviation bounding (uniform default, <=2 deviating positions); " +
+	Rule: "complete enumeration: (a) all registration programs of <=N statements over {Use(k), Group(prefix,k){...}, Route(k variadic + k2 later Route.Use), NotFound(k), NotAllowed(k)} with nesting <=3, one request per registered route plus a 404 and a 405 request, then again after one more middleware was attached to every route (Route.Use) and after one more global middleware was added (Router.Use); (b) all behaviour vectors over {returns without Next, Next once, Next twice} for chains of n<=6 (thorough 7) x every split of the middleware into global/group/route x how route middleware is attached; (c) chains of 22..63 handlers, and of 64..81 handlers (global middleware is not counted by the limit), by deviation bounding (uniform default, <=2 deviating positions); " +
 		"oracle = enter/leave trace equals the cursor-free chain interpreter over the chain computed by the registration-program model; non-trivial = program with a group or a Use / chain with a handler that does not call Next exactly once",
 	Assume: []string{"handler identity = closure id allocated in program order by both harness and model"},
 	Bounds: func(tier string) map[string]any {
